@@ -84,6 +84,8 @@ def gen_plan(rng, tier, config, opts):
                 s = '-' + s
             if rng.chance(0.15):
                 s = '0' * rng.randint(1, 30) + s.lstrip('-')
+            if rng.chance(0.08):
+                s = '-' + '0' * rng.randint(1, 6)          # minus zero: the value is zero, and zero has no sign
             if faulty and rng.chance(0.15) and s:
                 # a character outside the alphabet somewhere (the parser may stop there: don't-care value)
                 i = rng.below(len(s))
@@ -98,7 +100,7 @@ def gen_plan(rng, tier, config, opts):
 def _fault(rng, s, t, slot_types):
     k = rng.weighted([('flip', 24), ('set', 8), ('tag', 8), ('last', 6), ('trunc', 9), ('cut', 4), ('extend', 6),
                       ('prefix', 5), ('zero', 3), ('ff', 2), ('splice', 5), ('replace', 3), ('setp', 9), ('inc', 9),
-                      ('winff', 3)])
+                      ('winff', 3), ('negc', 8)])
     a, b, src = rng.below(100000), rng.below(256), rng.below(8)
     if k == 'tag':
         a = rng.choice([0, 1, 2, 3, 4, 5, 6, 7, 0x80, 0xff]) if rng.chance(0.7) else rng.below(256)
@@ -110,7 +112,7 @@ def _fault(rng, s, t, slot_types):
     if k == 'inc':
         a = rng.below(12)
         b = rng.choice([1, 1, 2, 255])
-    if k == 'winff':
+    if k in ('winff', 'negc'):
         a = rng.below(12)
     if k == 'prefix':
         b = rng.choice([0, 0, 0, 1, 0xff])
@@ -542,6 +544,8 @@ def check(plan, transcript, config, opts):
             val = -val
         if val != exp:
             bad('bnstr', 'radix', 'read', 'bn_read_str("%s", radix %d) = %d, positional notation gives %d' % (s[:80], radix, val, exp))
+        elif val == 0 and d['sign'] == '1':
+            bad('bnstr', 'radix', 'negative-zero', 'bn_read_str("%s", radix %d) yields a zero with negative sign (not a valid integer object: it compares below zero)' % (s[:80], radix))
     out.sim_time = len(transcript.split('\n'))
     return out
 
